@@ -1,7 +1,8 @@
 """C16 - readers and writers treat paths, gzip paths and open streams alike."""
 import json
 
-from common import cstr, cbool, clist, log, cexn
+from common import cstr, cbool, clist, log, cexn, run_coqc, REPO
+import translate_io
 
 TRUSTED_BASE = [
     'PARTIAL BY NATURE: which Python object is a text / binary stream (isinstance against the io ABCs) and the codecs (UTF-8, gzip) are runtime behaviour; '
@@ -13,6 +14,9 @@ TRUSTED_BASE = [
     '.gz-path writers differ (Io.Proofs.write_newline_platform_caveat) - not executable here',
     'a caller\'s own text stream is passed through untouched: its decoding and newline mode are the caller\'s (the exploration opens text streams the default way)',
     'URL sources are not opened (no network); looks_like_url is compared as a string function',
+    'TRANSLATOR (harness/translate_io.py, fail-closed Python-ast -> Gallina, ~250 lines): on every run the two helpers and the two string tests are translated from '
+    'src/hpotk/util/_io.py and Coq proves the translated definitions equal to Io.Model for every argument (work/C16/IoGen.v); trusted: the translator\'s reading of '
+    'isinstance classes, of the keywords encoding= / newline= / mode= and of the call names gzip.open, io.TextIOWrapper, open, urlopen',
 ]
 ASSUMPTIONS = ['text content is UTF-8 encodable; a ".gz" name holds gzip data and other names hold plain data']
 THEOREM = 'C16_read_uniform / C16_read_uniform_all_kinds / C16_line_endings / C16_layers / C16_write_uniform / C16_suffix_and_url_tests'
@@ -49,8 +53,30 @@ def strings(rng):
     return base
 
 
+def translation_tie(chk):
+    """second tie: the decision table is TRANSLATED from the source and proved equal to the model.
+    Returns None when the tie holds, else a description of what no longer checks."""
+    src = REPO / 'src' / 'hpotk' / 'util' / '_io.py'
+    try:
+        text = translate_io.translate(str(src))
+    except translate_io.TranslateError as e:
+        return f'translator rejects {src}: {e} (the source no longer has the shape the model was read from)'
+    except Exception as e:      # syntax error etc.
+        return f'translator failed on {src}: {type(e).__name__}: {e}'
+    v = chk.work / 'IoGen.v'
+    v.write_text(text)
+    r = run_coqc(v.name, cwd=chk.work)
+    chk.extra['translated_definitions'] = [l.strip() for l in text.splitlines() if l.startswith('Definition') or l.strip().startswith('| ')]
+    if r.returncode != 0:
+        return ('the definitions translated from the source are NOT equal to the model (Io.Model) the theorems are about: '
+                + (r.stdout + r.stderr).strip()[-500:])
+    chk.count('translated-and-proved-equal')
+    return None
+
+
 def run(chk):
     strs = strings(chk.rng)
+    broken_tie = translation_tie(chk)
     obs = chk.run_impl('C16', {'workdir': str(chk.work), 'strings': strs})
     # the same products in a process whose locale prefers a non-UTF-8 encoding ("configurations")
     cfg = chk.run_impl('C16', {'workdir': str(chk.work), 'strings': [], 'config': 'LC_ALL=C, no UTF-8 mode'},
@@ -93,7 +119,7 @@ def run(chk):
                 problems.append(('C16:reader:other-argument', r))
         elif not r.get('same_as_path'):
             problems.append(('C16:reader:' + ('stream' if 'path' not in r['kind'] else r['kind'].replace('-multimember', '')) + (':non-utf8-text' if 'utf16' in r['kind'] else '')
-                             + (':' + r['eol'] if r.get('eol', 'lf') != 'lf' else '') + (':second-configuration' if r.get('config') else ''), r))
+                             + (':' + r['eol'] if r.get('eol', 'lf') != 'lf' else '') + (':bom' if r.get('non_ascii') == 'bom' else '') + (':second-configuration' if r.get('config') else ''), r))
     for w in obs['writers']:
         chk.count('writer:' + w['writer'])
         if w['kind'].startswith('other:'):
@@ -111,11 +137,19 @@ def run(chk):
     chk.extra['reader_runs'] = len(obs['readers'])
     chk.extra['writer_runs'] = len(obs['writers'])
     chk.rule = ('EXHAUSTIVE product: readers {load_minimal_ontology, load_ontology, SimpleHpoaDiseaseLoader.load, SimilarityContainer.from_csv} x sources {path, .gz path (single- and multi-member gzip), open text '
-                'file (UTF-8 and UTF-16), open binary file, StringIO, BytesIO, gzip text stream, gzip binary stream} x {ASCII, non-ASCII content} x {LF, CR LF, CR line endings}: result equal to the plain-path result; writers '
+                'file (UTF-8 and UTF-16), open binary file, StringIO, BytesIO, gzip text stream, gzip binary stream} x {ASCII, non-ASCII content} x {LF, CR LF, CR line endings} + content starting with a UTF-8 byte order mark: result (or raised exception class) equal to the plain-path result; writers '
                 '{SimilarityContainer.to_csv, AnnotationIcContainer.to_csv} x targets {path, .gz path, open text file stream, open binary file stream}: content (timestamp removed) '
                 'equal; both products again in a second process configuration (LC_ALL=C without UTF-8 mode: the locale prefers ASCII); 7 non-stream argument types must raise ValueError; the decision taken by '
                 'the helper for 13 file names and 13 stream objects, the text layer of every handle it creates (its encoding follows the `encoding` parameter - default and latin-1 - and the text delivered / '
                 'emitted for a probe mixing LF, CR LF and CR) and looks_like_url / looks_gzipped on 170 strings are compared with the model inside Coq')
+    if broken_tie:
+        # the translated definitions no longer match the model.  The behavioural exploration above is the search
+        # for a failing input: if it found one, that concrete case is the replay; if not, say so.
+        concrete = [p for p in problems if p[0].startswith('C16:reader') or p[0].startswith('C16:writer')]
+        chk.report_violation('C16:translation', {'no_failing_input': not concrete, 'broken': ['Lemma open_for_reading_src_ok / open_for_writing_src_ok / looks_*_src_ok (work/C16/IoGen.v)'],
+                                                 'detail': broken_tie, 'theorem': THEOREM,
+                                                 'failing_inputs_found_by_the_exploration': [p[1] for p in concrete[:3]]},
+                             what='C16:translation: ' + broken_tie[:300])
     seen = {}
     for sig, detail in problems:
         if sig in seen:
